@@ -190,6 +190,56 @@ const NEGATIVES: &[Negative] = &[
     Negative { name: "unknown-trait-method", src: "fn main() -> unit {\n    let s = St { v: 1 };\n    let _ = string_println(int32_to_string(Tr1::zz(s, 1)));\n    ()\n}\n", expect_any: &["not found", "Unknown", "no method", "Unresolved"] },
 ];
 
+/// a generic type with a generic inherent impl block and an instance-specific one:
+/// (source, [(cell, expression, expected)]). The last cell (path form of a method both blocks define)
+/// is where the unchanged compiler is known to disagree with the dot form.
+pub fn inherent_overlap_program() -> (String, Vec<(&'static str, &'static str, i64)>) {
+    let cells: Vec<(&'static str, &'static str, i64)> = vec![
+        ("dot-call-of-generic-block-method-on-instance-with-own-block", "bi.peek()", 1),
+        ("path-call-of-generic-block-method-on-instance-with-own-block", "Bxg::peek(bi)", 1),
+        ("dot-call-of-instance-block-method", "bi.dbl()", 8),
+        ("dot-call-of-generic-block-method-on-other-instance", "bs.peek()", 1),
+        ("path-call-of-generic-block-method-on-other-instance", "Bxg::peek(bs)", 1),
+        ("generic-method-with-argument-on-instance-with-own-block", "bi.plus(5)", 15),
+        ("dot-call-of-method-in-both-blocks-runs-instance-block", "bi.tag()", 200),
+        ("dot-call-of-method-in-both-blocks-on-other-instance-runs-generic-block", "bs.tag()", 100),
+        ("path-call-of-method-in-both-blocks-runs-instance-block", "Bxg::tag(bi)", 200),
+    ];
+    let mut src = String::from(
+        "struct Bxg[T] { it: T }\nimpl[T] Bxg[T] {\n    fn peek(self: Bxg[T]) -> int32 { 1 }\n    fn plus(self: Bxg[T], k: int32) -> int32 { k + 10 }\n    fn tag(self: Bxg[T]) -> int32 { 100 }\n}\nimpl Bxg[int32] {\n    fn dbl(self: Bxg[int32]) -> int32 { self.it * 2 }\n    fn tag(self: Bxg[int32]) -> int32 { 200 }\n}\nfn main() -> unit {\n    let bi: Bxg[int32] = Bxg { it: 4 };\n    let bs: Bxg[string] = Bxg { it: \"x\" };\n",
+    );
+    for (_, e, _) in &cells {
+        src.push_str(&format!("    let _ = string_println(int32_to_string({}));\n", e));
+    }
+    src.push_str("    ()\n}\n");
+    (src, cells)
+}
+
+/// runs the overlap program; cells listed in `skip` are not judged (C01 leaves the known path-form cell out)
+pub fn check_inherent_overlap(c: &mut Case, prop: &str, skip_known_path_cell: bool) {
+    let (src, cells) = inherent_overlap_program();
+    if let Some((out, term, stderr)) = exec::run_source(c, prop, "inherent-overlap", &src, 1_000_000) {
+        let got: Vec<&str> = out.lines().collect();
+        for (i, (cell, expr, want)) in cells.iter().enumerate() {
+            if skip_known_path_cell && cell.starts_with("path-call-of-method-in-both-blocks") {
+                continue;
+            }
+            match got.get(i) {
+                Some(g) if *g == want.to_string() => {
+                    c.count("calls_checked", 1);
+                    c.count("inherent_overlap_cells_ok", 1);
+                    c.nontrivial(hash_str(cell));
+                }
+                other => c.violation(
+                    format!("{}:inherent-overlap:{}", prop, cell),
+                    format!("`{}` prints {:?}, expected {} ({:?} {})", expr, other, want, term, util::truncate(&stderr, 80)),
+                    json!({"cell": cell, "expression": expr, "expected": want, "got": other, "source": src}),
+                ),
+            }
+        }
+    }
+}
+
 /// well-typed programs that use a dyn value whose type the typer learns late; each has its own signature
 const LATE_TYPED_PROBES: &[(&str, &str, &str)] = &[
     ("dyn-element-of-vec", "    let s = St { v: 1 };\n    let d: dyn Tr1 = s;\n    let vs: Vec[dyn Tr1] = vec_push(vec_new(), d);\n    let e = vec_get(vs, 0);\n    let _ = string_println(int32_to_string(Tr1::m(e, 1)));\n", "2"),
@@ -341,6 +391,12 @@ fn run(ctx: &mut Ctx) {
                 }
             });
         }
+    }
+    if ctx.mine(899_999) {
+        ctx.case("inherent-overlap", |c| {
+            check_inherent_overlap(c, "C17", false);
+            c.sample(json!({"workload": "generic and instance-specific inherent impl blocks of one type"}));
+        });
     }
     for (k, (name, body, expect)) in LATE_TYPED_PROBES.iter().enumerate() {
         if !ctx.mine(900_000 + k as u64) {
